@@ -1196,6 +1196,9 @@ func (x *ctx) run(st *state, fr *frame, b *ssa.BasicBlock, idx int, prev *ssa.Ba
 			a := x.get(fr, st, in.X)
 			if in.CommaOk {
 				ok := x.freshTerm("typeok", sBool)
+				if a.t.s != "" && a.t.srt == sRef {
+					st.define(implies(ok.s, not(eq(a.t, null)))) // a successful assertion means the interface was not nil
+				}
 				fr.regs[in] = val{agg: true, fields: []val{a, scalar(ok)}}
 			} else {
 				fr.regs[in] = a
